@@ -11,6 +11,13 @@ ToSet(s) == {s[i] : i \in 1..Len(s)}
 Failing(r) ==
     (IF ToSet(r.listed) = ToSet(r.expect) /\ Len(r.listed) = Len(r.expect) /\ r.count = Len(r.expect) THEN {} ELSE {"C04_AddressFilter"})
     \cup (IF ToSet(r.listed) \subseteq ToSet(r.own) THEN {} ELSE {"C04_Isolation"})
+    \cup (IF "gotSource" \in DOMAIN r
+          THEN (IF /\ ToSet(r.gotSource) = ToSet(r.bySource) /\ Len(r.gotSource) = Len(r.bySource)
+                   /\ ToSet(r.gotDestination) = ToSet(r.byDestination) /\ Len(r.gotDestination) = Len(r.byDestination)
+                   /\ ToSet(r.gotAccount) = ToSet(r.byAccount) /\ Len(r.gotAccount) = Len(r.byAccount)
+                   /\ r.countAccount = Len(r.byAccount)
+                THEN {} ELSE {"C04_AddressFilterOnTransactions"})
+          ELSE {})
 OInit == l = 0 /\ viol = {} /\ TLCSet(1, {})
 ONext ==
     /\ l < Len(Results)
